@@ -28,21 +28,41 @@ def body(t):
 
 
 def gen_clause_args(rng):
+    """one clause of the fragment under C11_clauses_after_the_table_exact: tag + five words (unused ones empty)"""
     from props import C01 as P1
-    k = rng.randrange(7)
+    k = rng.randrange(15)
+    lit = lambda: rng.choice(["','", "'|'", "'\\t'", "'x'", "';'", "'a b'"])
     if k == 0:
-        return ["TS", P1.kwc(rng, "TABLESPACE"), rng.choice(["ts1", "Users_ts", "t_2"]), ""]
-    if k == 1:
-        return ["ST", P1.kwc(rng, "STORED"), P1.kwc(rng, "AS"), rng.choice(["TEXTFILE", "parquet", "ORC"])]
-    if k == 2:
-        return ["LO", P1.kwc(rng, "LOCATION"), rng.choice(["'s3://b/p'", "'/data/x y'", "'p'"]), ""]
-    if k == 3:
-        return ["EN", P1.kwc(rng, "ENGINE"), rng.choice(["InnoDB", "MyISAM", "x1"]), ""]
-    if k == 4:
-        return ["CO", P1.kwc(rng, "COMMENT"), rng.choice(["'tbl'", "'a b c'", "'x-1'"]), ""]
-    if k == 5:
-        return ["US", P1.kwc(rng, "USING"), rng.choice(["parquet", "delta", "csv"]), ""]
-    return ["IN", P1.kwc(rng, "IN"), rng.choice(["ts1", "space_2"]), ""]
+        c = ["TS", P1.kwc(rng, "TABLESPACE"), rng.choice(["ts1", "Users_ts", "t_2"])]
+    elif k == 1:
+        c = ["ST", P1.kwc(rng, "STORED"), P1.kwc(rng, "AS"), rng.choice(["TEXTFILE", "parquet", "ORC"])]
+    elif k == 2:
+        c = ["LO", P1.kwc(rng, "LOCATION"), rng.choice(["'s3://b/p'", "'/data/x y'", "'p'"])]
+    elif k == 3:
+        c = ["EN", P1.kwc(rng, "ENGINE"), rng.choice(["InnoDB", "MyISAM", "x1"])]
+    elif k == 4:
+        c = ["CO", P1.kwc(rng, "COMMENT"), rng.choice(["'tbl'", "'a b c'", "'x-1'"])]
+    elif k == 5:
+        c = ["US", P1.kwc(rng, "USING"), rng.choice(["parquet", "delta", "csv"])]
+    elif k == 6:
+        c = ["IN", P1.kwc(rng, "IN"), rng.choice(["ts1", "space_2"])]
+    elif k == 7:
+        c = ["RS", P1.kwc(rng, "ROW"), P1.kwc(rng, "FORMAT"), P1.kwc(rng, "SERDE"), rng.choice(["'org.apache.hadoop.hive.serde2.OpenCSVSerde'", "'my.Serde'"])]
+    elif k == 8:
+        c = ["RW", P1.kwc(rng, "ROW"), P1.kwc(rng, "FORMAT"), rng.choice(["DELIMITED", "delimited", "Delimited"])]
+    elif k == 9:
+        c = ["TE", rng.choice(["FIELDS", "LINES", "fields", "Lines"]), P1.kwc(rng, "TERMINATED"), P1.kwc(rng, "BY"), lit()]
+    elif k == 10:
+        c = ["CI", P1.kwc(rng, "COLLECTION"), P1.kwc(rng, "ITEMS"), P1.kwc(rng, "TERMINATED"), P1.kwc(rng, "BY"), lit()]
+    elif k == 11:
+        c = ["MK", P1.kwc(rng, "MAP"), P1.kwc(rng, "KEYS"), P1.kwc(rng, "TERMINATED"), P1.kwc(rng, "BY"), lit()]
+    elif k == 12:
+        c = ["CS", P1.kwc(rng, "COMMENT"), rng.choice(["'tbl'", "'a b c'", "'x-1'"])]
+    elif k == 13:
+        c = ["GE", rng.choice(["DISTSTYLE", "diststyle", "Backup", "SORTSTYLE"]), rng.choice(["EVEN", "ALL", "auto", "x1"])]
+    else:
+        c = ["IT", P1.kwc(rng, "INTO"), rng.choice(["4", "32", "1"]), rng.choice(["BUCKETS", "buckets"])]
+    return c + [""] * (6 - len(c))
 
 
 def theorem_forms(ctx, res):
@@ -59,8 +79,8 @@ def theorem_forms(ctx, res):
         cl = []
         for _ in range(rng.choice([0, 1, 1, 2, 3, 5, 8])):
             c = gen_clause_args(rng)
-            if c[0] == "IN" and cl and cl[-1][0] == "TS":
-                continue                   # TABLESPACE x IN ... is one clause for the grammar
+            if c[0] in ("IN", "TE", "GE") and cl and cl[-1][0] == "TS":
+                continue                   # TABLESPACE x IN ... / TABLESPACE x word ... is one clause (tablespace properties) for the grammar
             cl.append(c)
         args = P2.clause_args(t, rng) + ["CLAUSES"] + [x for c in cl for x in c]
         asts.append((t, cl, args))
